@@ -44,6 +44,9 @@ type replayer struct {
 	gateReached  chan struct{}
 	gateRelease  chan struct{}
 	unsub        map[int]*pendingCall // conn -> waiting Unsubscribe
+	gatedL1      bool                 // SetL1 steps stop between the feed send and the database write (L1Write follows)
+	l1gate       chan struct{}
+	l1done       chan error
 	nsteps       int
 }
 
@@ -207,7 +210,20 @@ func (r *replayer) apply(st *step) (resT, error) {
 			b := r.w.built[r.chain[a.N]]
 			head.BlockHash, head.StateRoot = b.Block.Hash, b.Block.GlobalStateRoot
 		}
-		return resT{Kind: "ok"}, r.s.node.BC.SetL1Head(head)
+		if !r.gatedL1 {
+			return resT{Kind: "ok"}, r.s.node.BC.SetL1Head(head)
+		}
+		// feed send now, database write at the model's L1Write step
+		r.l1gate, r.l1done = r.s.gstore.arm(), make(chan error, 1)
+		go func(done chan error) { done <- r.s.node.BC.SetL1Head(head) }(r.l1done)
+		return resT{Kind: "ok"}, nil
+	case "L1Write":
+		if r.l1gate == nil {
+			return resT{}, fmt.Errorf("harness: L1Write without a pending SetL1Head")
+		}
+		close(r.l1gate)
+		r.l1gate = nil
+		return resT{Kind: "ok"}, <-r.l1done
 	case "PcFull", "PcDelta":
 		h, err := r.s.node.BC.Height()
 		if err != nil {
@@ -427,7 +443,7 @@ func (r *replayer) checkPost(st *step) error {
 	return nil
 }
 
-func (r *replayer) run(beh *behaviour, initLen, startL1 int) (int, error) {
+func (r *replayer) run(beh *behaviour, initLen, startL1 int, gated bool) (int, error) {
 	// the initial chain: tags 1..InitLen, no transactions
 	for t := 1; t <= initLen; t++ {
 		if _, err := r.apply(&step{A: action{Name: "Store", Tag: t, H: t - 1}}); err != nil {
@@ -441,6 +457,7 @@ func (r *replayer) run(beh *behaviour, initLen, startL1 int) (int, error) {
 		}
 	}
 	r.settle()
+	r.gatedL1 = gated
 	for i := range beh.Steps {
 		st := &beh.Steps[i]
 		obs, err := r.apply(st)
@@ -501,11 +518,15 @@ func TestSubsReplay(t *testing.T) {
 			}
 			r := &replayer{t: t, ver: in.Ver, version: version, w: newWorld(vh.Seed()*1000 + int64(bi+in.First)), s: s, conns: map[int]*conn{},
 				subID: map[int]string{}, subConn: map[int]*conn{}, subAct: map[int]action{}, unsub: map[int]*pendingCall{}}
-			idx, err = r.run(beh, in.InitLen, in.StartL1)
+			idx, err = r.run(beh, in.InitLen, in.StartL1, !in.FixL1Order)
 			steps = r.nsteps
 			// end of the behaviour: release a request still in its window, close every connection, stop the handler
 			if r.gateRelease != nil {
 				close(r.gateRelease)
+			}
+			if r.l1gate != nil {
+				close(r.l1gate)
+				<-r.l1done
 			}
 			for _, c := range r.conns {
 				c.close()
@@ -534,12 +555,12 @@ func TestSubsReplay(t *testing.T) {
 			}
 			if d.key == "harness" {
 				out.Diverge(vh.Divergence{Key: "harness:" + firstWords(d.what), What: "HARNESS PROBLEM (not a verdict about juno): " + d.what,
-					Input: vh.J{"ver": in.Ver, "initlen": in.InitLen, "startl1": in.StartL1, "first": bi + in.First, "behaviours": []behaviour{{Steps: beh.Steps[:max(idx+1, 0)]}}}, Step: idx})
+					Input: vh.J{"ver": in.Ver, "initlen": in.InitLen, "startl1": in.StartL1, "fixl1order": in.FixL1Order, "first": bi + in.First, "behaviours": []behaviour{{Steps: beh.Steps[:max(idx+1, 0)]}}}, Step: idx})
 				out.Count("harness_errors", 1)
 				continue
 			}
 			out.Diverge(vh.Divergence{Key: fmt.Sprintf("%s:%s", d.key, version), What: d.what,
-				Input: vh.J{"ver": in.Ver, "initlen": in.InitLen, "startl1": in.StartL1, "first": bi + in.First, "behaviours": []behaviour{{Steps: beh.Steps[:idx+1]}}},
+				Input: vh.J{"ver": in.Ver, "initlen": in.InitLen, "startl1": in.StartL1, "fixl1order": in.FixL1Order, "first": bi + in.First, "behaviours": []behaviour{{Steps: beh.Steps[:idx+1]}}},
 				Step:  idx, Expected: d.exp, Observed: d.obs})
 			continue
 		}
